@@ -450,7 +450,7 @@ class Spec:
                 probes["exception-in-body"] = 1
             res = {"verdict": "violation" if viol else "ok", "violations": viol, "digest": k.digest(),
                    "signature": k.signature(), "steps": k.step, "switches": k.switches, "preemptions": k.preemptions,
-                   "sync_events": k.sync_events, "max_live": k.max_live, "probes": probes, "faults": k.faults,
+                   "sync_events": k.sync_events, "max_live": k.max_live, "abstract_states": sorted(k.abstract_states), "probes": probes, "faults": k.faults,
                    "strategy": strategy.name, "nontrivial": k.max_live >= 2 and k.preemptions >= 1,
                    "plan": {**plan, "strategy": strategy.describe()}, "streams": choice.streams(), "end": kind,
                    "stalled": kind == "stall"}
